@@ -12,7 +12,7 @@ import progs
 from vlib import Inconclusive
 
 META = {
-    'technique': 'TLA+ Eval.tla with two evaluations sharing tasks (exhaustive) + EvalGen two-evaluation schedules replayed gated and free-running into the real Eval, judged by EvalMon.tla; concurrent Run/scan/discard scenarios in real sessions judged by ProgMon.tla; race detector on the same drivers in the thorough tier',
+    'technique': 'TLA+ Eval.tla with two evaluations sharing tasks (exhaustive) + EvalGen two-evaluation schedules replayed gated and free-running into the real Eval, judged by EvalMon.tla; concurrent Run/scan/discard scenarios in real sessions judged by ProgMon.tla; race detector on the same drivers in the thorough tier; worker side of a shared task: Worker.tla (concurrent Worker.Run requests, cancellation, failure, Discard) checked exhaustively and recorded histories of the real worker.Run/Discard judged by WorkerMon.tla (OneExecution, NoRunDuringDiscard, ReplyOk, Returns)',
     'level_text': 'model_checking: all interleavings of two evaluations sharing tasks are explored on small graphs (single runner, awaited by the others, success only when done, never stuck); TLC-generated two-evaluation schedules are replayed into exec.Eval and the traces judged by the monitors; sets of 2-4 programs sharing result arguments are started concurrently in real sessions on both executors under varied GOMAXPROCS and each run is judged against the value it would have alone',
     'level_note': '"no data races" is a Go-memory-model clause that TLA+ cannot decide: the Go race detector run over the same concurrent drivers (thorough tier) is auxiliary evidence for that clause only',
 }
